@@ -249,6 +249,33 @@ func reach(c *explore.Ctx, visit func(scope string, idx int64, st *state)) {
 			emit("R0-EXTREME", int64(ei), &state{desc: desc, bytes: b, n: nn, orig: seg, want: model.Build(e.Batch), mode: 1025})
 		}
 	}
+	// ALIGN: segments whose data section, data section + footer without CRC, or whole file is an
+	// exact multiple of the block sizes a reader or a writer may move data in (found by search over
+	// the length of one incompressible stored value)
+	{
+		targets := []int{4096, 8192, 32768, 65536, 131072, 1 << 20}
+		if c.Thorough() {
+			targets = append(targets, 12288, 262144, 2<<20)
+		}
+		var idx int64
+		for _, t := range targets {
+			for _, off := range []int{44, 40, 0} {
+				my := idx
+				idx++
+				if !c.MineIdx("R0-ALIGN", my) || c.Expired() {
+					continue
+				}
+				batch, seg, b, nn := alignBatch(t, off)
+				if batch == nil {
+					c.Count("align_targets_not_reached")
+					continue
+				}
+				c.R.Transitions++
+				c.Count("align_targets_reached")
+				emit("R0-ALIGN", my, &state{desc: fmt.Sprintf("built ALIGN: file length - %d = %d", off, t), bytes: b, n: nn, orig: seg, want: model.Build(batch), mode: 1025})
+			}
+		}
+	}
 	// the ZOO (segments of unusual make shared by all read-side properties)
 	if !c.Replay || c.ReplayScope == "R0-ZOO" {
 		save := c.ReplayScope
@@ -444,6 +471,38 @@ func runC04(c *explore.Ctx) {
 			c.Violate(scope, idx, sigOf("C04", "loaded-file", d), d, st.desc)
 			return
 		}
+		// a loaded segment is a segment too: WriteTo on it (memory-backed and file-backed) succeeds,
+		// reports what it wrote, and what it wrote loads and reads like the original
+		for bi, l2 := range []segment.Segment{lm, lf} {
+			backing := [...]string{"mem", "file"}[bi]
+			b2, n2, err := persist(l2)
+			c.R.Transitions++
+			if err != nil {
+				c.Violate(scope, idx, sigOf("C04", "persist-loaded-"+backing, "error: "+err.Error())+zs, err.Error(), st.desc)
+				return
+			}
+			if n2 != int64(len(b2)) {
+				c.Violate(scope, idx, "C04/persist-loaded-"+backing+"/byte-count", fmt.Sprintf("WriteTo of the %s-backed loaded segment reported %d, wrote %d", backing, n2, len(b2)), st.desc)
+				return
+			}
+			if bytes.Equal(b2, st.bytes) {
+				continue // the image observed above
+			}
+			l3, err := loadMem(b2)
+			if err != nil {
+				c.Violate(scope, idx, sigOf("C04", "load-repersisted-"+backing, "error: "+err.Error())+zs, err.Error(), st.desc)
+				return
+			}
+			o3, err := observe(l3)
+			if err != nil {
+				c.Violate(scope, idx, sigOf("C04", "observe-repersisted-"+backing, "error: "+err.Error())+zs, err.Error(), st.desc)
+				return
+			}
+			if d := obs.Diff(o3, want, obs.CAll); d != "" {
+				c.Violate(scope, idx, sigOf("C04", "repersisted-"+backing, d), d, st.desc)
+				return
+			}
+		}
 		// the image embedded in a larger buffer with other bytes before and after it (spare capacity
 		// beyond the file: anything that reads by cap() or past the footer sees garbage, not a panic)
 		big := make([]byte, len(st.bytes)+64)
@@ -610,3 +669,49 @@ func runC11(c *explore.Ctx) {
 }
 
 var _ = os.Remove
+
+// alignBatch searches a two-document batch whose persisted length minus off is exactly target: one
+// stored value of incompressible bytes carries the bulk, its length is corrected by the remaining
+// difference until the length fits (deterministic; nil when 40 corrections do not reach it).
+func alignBatch(target, off int) ([]model.Doc, segment.Segment, []byte, int64) {
+	mk := func(l, pad int) []model.Doc {
+		v := make([]byte, l)
+		x := uint32(target*31 + off + 7)
+		for i := range v {
+			x = x*1664525 + 1013904223
+			v[i] = byte(x >> 24)
+		}
+		return []model.Doc{
+			{gen.IDField("g", 0), {N: "a", Len: 1, St: true, Val: v, Terms: []model.Term{{T: "x", Freq: 1}}}},
+			{gen.IDField("g", 1), {N: "a", Len: 1, St: true, Val: []byte(strings.Repeat("p", pad)), Terms: []model.Term{{T: "y", Freq: 1}}}},
+		}
+	}
+	l, pad := target-400, 1
+	if l < 16 {
+		l = 16
+	}
+	for it := 0; it < 40; it++ {
+		batch := mk(l, pad)
+		seg, err := build(batch, 1025)
+		if err != nil {
+			return nil, nil, nil, 0
+		}
+		b, nn, err := persist(seg)
+		if err != nil {
+			return nil, nil, nil, 0
+		}
+		d := target - (len(b) - off)
+		if d == 0 {
+			return batch, seg, b, nn
+		}
+		if l+d < 16 {
+			return nil, nil, nil, 0
+		}
+		if it%4 == 3 && d > 0 && d < 8 {
+			pad += d // a different handle when the main one oscillates around a length-prefix boundary
+		} else {
+			l += d
+		}
+	}
+	return nil, nil, nil, 0
+}
